@@ -68,7 +68,12 @@ def main():
             if f['property'] != pid or 'witness' not in f or f['witness'].get('kind') not in ('gdesc', 'payload'):
                 continue
             payload = f['witness'].get('payload') or {'layer': f['layer'], 'g': f['witness'].get('g')}
+            if payload.get('g') is not None:
+                from harness.gd import normalise
+                payload['g'] = normalise(payload['g'])
             fails = [c for c in replay_payload(payload) if c[0].startswith(prefix)]
+            if f.get('clauses'):
+                fails = [c for c in fails if c[0] in f['clauses']]
             if f['status'] == 'fixed':
                 if fails:
                     violations.append({'clause': fails[0][0], 'where': 'fixed finding regressed: ' + f['text'],
@@ -83,7 +88,7 @@ def main():
         for v in violations:
             hit = False
             for f in suppress:
-                if v['clause'] in f.get('clauses', []) and triggers.holds(f.get('trigger'), v['payload']):
+                if v['clause'] in f.get('clauses', []) and triggers.holds_args(f.get('trigger'), v['payload'], f.get('trigger_args') or {}):
                     hit = True
                     break
             if hit:
